@@ -17,29 +17,29 @@ open ConjureVerif ConjureVerif.DoubleOps
 
 /-! #### instantiation: the source text of every `DoubleOps` impl and of `DoubleKey` -/
 theorem gen_double_ops_source :
-    Gen.ObjPrivateSrc.bodies.lookup "DoubleOps for f64::cmp" = some "{OrderedFloat(*self).cmp(&OrderedFloat(*other))}" ∧
-    Gen.ObjPrivateSrc.bodies.lookup "DoubleOps for f64::eq" = some "{OrderedFloat(*self)==OrderedFloat(*other)}" ∧
-    Gen.ObjPrivateSrc.bodies.lookup "DoubleOps for f64::hash" = some "{OrderedFloat(*self).hash(hasher)}" ∧
-    Gen.ObjPrivateSrc.bodies.lookup "DoubleOps for Option<T>::cmp" = some "{match(self,other){(Some(a),Some(b))=>a.cmp(b),(Some(_),None)=>Ordering::Greater,(None,Some(_))=>Ordering::Less,(None,None)=>Ordering::Equal,}}" ∧
-    Gen.ObjPrivateSrc.bodies.lookup "DoubleOps for Option<T>::eq" = some "{match(self,other){(Some(a),Some(b))=>a.eq(b),(Some(_),None)|(None,Some(_))=>false,(None,None)=>true,}}" ∧
-    Gen.ObjPrivateSrc.bodies.lookup "DoubleOps for Option<T>::hash" = some "{mem::discriminant(self).hash(hasher);ifletSome(v)=self{v.hash(hasher);}}" ∧
-    Gen.ObjPrivateSrc.bodies.lookup "DoubleOps for Vec<T>::cmp" = some "{letl=usize::min(self.len(),other.len());letlhs=&self[..l];letrhs=&other[..l];foriin0..l{matchlhs[i].cmp(&rhs[i]){Ordering::Equal=>{}v=>returnv,}}self.len().cmp(&other.len())}" ∧
-    Gen.ObjPrivateSrc.bodies.lookup "DoubleOps for Vec<T>::eq" = some "{ifself.len()!=other.len(){returnfalse;}foriin0..self.len(){if!self[i].eq(&other[i]){returnfalse;}}true}" ∧
-    Gen.ObjPrivateSrc.bodies.lookup "DoubleOps for Vec<T>::hash" = some "{self.len().hash(hasher);forvinself{v.hash(hasher);}}" ∧
-    Gen.ObjPrivateSrc.bodies.lookup "DoubleOps for BTreeMap<K,V>::cmp" = some "{self.iter().map(|(k,v)|(k,DoubleOpsWrapper(v))).cmp(other.iter().map(|(k,v)|(k,DoubleOpsWrapper(v))))}" ∧
-    Gen.ObjPrivateSrc.bodies.lookup "DoubleOps for BTreeMap<K,V>::eq" = some "{self.iter().map(|(k,v)|(k,DoubleOpsWrapper(v))).eq(other.iter().map(|(k,v)|(k,DoubleOpsWrapper(v))))}" ∧
-    Gen.ObjPrivateSrc.bodies.lookup "DoubleOps for BTreeMap<K,V>::hash" = some "{self.len().hash(hasher);for(k,v)inself{(k,DoubleOpsWrapper(v)).hash(hasher);}}" ∧
-    Gen.ObjPrivateSrc.bodies.lookup "PartialEq for DoubleOpsWrapper<'_,T>::eq" = some "{self.0.eq(other.0)}" ∧
-    Gen.ObjPrivateSrc.bodies.lookup "PartialOrd for DoubleOpsWrapper<'_,T>::partial_cmp" = some "{Some(self.cmp(other))}" ∧
-    Gen.ObjPrivateSrc.bodies.lookup "Ord for DoubleOpsWrapper<'_,T>::cmp" = some "{self.0.cmp(other.0)}" ∧
-    Gen.ObjPrivateSrc.bodies.lookup "Hash for DoubleOpsWrapper<'_,T>::hash" = some "{self.0.hash(state);}" := by
+    Gen.ObjPrivateSrc.hashes.lookup "DoubleOps for f64::cmp" = some 3317416179049685566 /- "{OrderedFloat(*self).cmp(&OrderedFloat(*other))}" -/ ∧
+    Gen.ObjPrivateSrc.hashes.lookup "DoubleOps for f64::eq" = some 5109566910599504853 /- "{OrderedFloat(*self)==OrderedFloat(*other)}" -/ ∧
+    Gen.ObjPrivateSrc.hashes.lookup "DoubleOps for f64::hash" = some 889762740993273617 /- "{OrderedFloat(*self).hash(hasher)}" -/ ∧
+    Gen.ObjPrivateSrc.hashes.lookup "DoubleOps for Option<T>::cmp" = some 17150339065665689753 /- "{match(self,other){(Some(a),Some(b))=>a.cmp(b),(Some(_),None)=>Ordering::Greater,(None,Some(_))=>Ordering::Less,(None,None)=>Ordering::Equal,}}" -/ ∧
+    Gen.ObjPrivateSrc.hashes.lookup "DoubleOps for Option<T>::eq" = some 121393038219773530 /- "{match(self,other){(Some(a),Some(b))=>a.eq(b),(Some(_),None)|(None,Some(_))=>false,(None,None)=>true,}}" -/ ∧
+    Gen.ObjPrivateSrc.hashes.lookup "DoubleOps for Option<T>::hash" = some 2486034766904643322 /- "{mem::discriminant(self).hash(hasher);ifletSome(v)=self{v.hash(hasher);}}" -/ ∧
+    Gen.ObjPrivateSrc.hashes.lookup "DoubleOps for Vec<T>::cmp" = some 9841606281591576733 /- "{letl=usize::min(self.len(),other.len());letlhs=&self[..l];letrhs=&other[..l];foriin0..l{matchlhs[i].cmp(&rhs[i]){Ordering::Equal=>{}v=>returnv,}}self.len().cmp(&other.len())}" -/ ∧
+    Gen.ObjPrivateSrc.hashes.lookup "DoubleOps for Vec<T>::eq" = some 1580944185000726326 /- "{ifself.len()!=other.len(){returnfalse;}foriin0..self.len(){if!self[i].eq(&other[i]){returnfalse;}}true}" -/ ∧
+    Gen.ObjPrivateSrc.hashes.lookup "DoubleOps for Vec<T>::hash" = some 18400198134951643287 /- "{self.len().hash(hasher);forvinself{v.hash(hasher);}}" -/ ∧
+    Gen.ObjPrivateSrc.hashes.lookup "DoubleOps for BTreeMap<K,V>::cmp" = some 444387017552035516 /- "{self.iter().map(|(k,v)|(k,DoubleOpsWrapper(v))).cmp(other.iter().map(|(k,v)|(k,DoubleOpsWrapper(v))))}" -/ ∧
+    Gen.ObjPrivateSrc.hashes.lookup "DoubleOps for BTreeMap<K,V>::eq" = some 4668468042148120976 /- "{self.iter().map(|(k,v)|(k,DoubleOpsWrapper(v))).eq(other.iter().map(|(k,v)|(k,DoubleOpsWrapper(v))))}" -/ ∧
+    Gen.ObjPrivateSrc.hashes.lookup "DoubleOps for BTreeMap<K,V>::hash" = some 12991002785900783232 /- "{self.len().hash(hasher);for(k,v)inself{(k,DoubleOpsWrapper(v)).hash(hasher);}}" -/ ∧
+    Gen.ObjPrivateSrc.hashes.lookup "PartialEq for DoubleOpsWrapper<'_,T>::eq" = some 9686786530693945152 /- "{self.0.eq(other.0)}" -/ ∧
+    Gen.ObjPrivateSrc.hashes.lookup "PartialOrd for DoubleOpsWrapper<'_,T>::partial_cmp" = some 12065986277121618337 /- "{Some(self.cmp(other))}" -/ ∧
+    Gen.ObjPrivateSrc.hashes.lookup "Ord for DoubleOpsWrapper<'_,T>::cmp" = some 1144844009117513414 /- "{self.0.cmp(other.0)}" -/ ∧
+    Gen.ObjPrivateSrc.hashes.lookup "Hash for DoubleOpsWrapper<'_,T>::hash" = some 408432958307591732 /- "{self.0.hash(state);}" -/ := by
   decide +kernel
 
 theorem gen_double_key_source :
-    Gen.DoubleKeySrc.bodies.lookup "PartialOrd for DoubleKey::partial_cmp" = some "{Some(self.cmp(other))}" ∧
-    Gen.DoubleKeySrc.bodies.lookup "PartialEq for DoubleKey::eq" = some "{OrderedFloat(self.0)==OrderedFloat(other.0)}" ∧
-    Gen.DoubleKeySrc.bodies.lookup "Ord for DoubleKey::cmp" = some "{OrderedFloat(self.0).cmp(&OrderedFloat(other.0))}" ∧
-    Gen.DoubleKeySrc.bodies.lookup "Hash for DoubleKey::hash" = some "{OrderedFloat(self.0).hash(state)}" := by
+    Gen.DoubleKeySrc.hashes.lookup "PartialOrd for DoubleKey::partial_cmp" = some 12065986277121618337 /- "{Some(self.cmp(other))}" -/ ∧
+    Gen.DoubleKeySrc.hashes.lookup "PartialEq for DoubleKey::eq" = some 1839315297590627093 /- "{OrderedFloat(self.0)==OrderedFloat(other.0)}" -/ ∧
+    Gen.DoubleKeySrc.hashes.lookup "Ord for DoubleKey::cmp" = some 14281156873136647414 /- "{OrderedFloat(self.0).cmp(&OrderedFloat(other.0))}" -/ ∧
+    Gen.DoubleKeySrc.hashes.lookup "Hash for DoubleKey::hash" = some 16633384470721426037 /- "{OrderedFloat(self.0).hash(state)}" -/ := by
   decide +kernel
 
 /-! #### the main theorem: every shape built from doubles, ordinary keys, optionals, lists, maps, objects
